@@ -75,7 +75,7 @@ def enrich_case(case, r):
     return case
 
 
-WINDOW_KINDS = ("shift", "superset", "subset", "same_count", "same_ends")
+WINDOW_KINDS = ("shift", "superset", "subset", "drop_first", "same_count", "same_ends")
 
 
 def window_variant(base, kind):
@@ -87,6 +87,8 @@ def window_variant(base, kind):
         return [f, d, ws[-1] + d]
     if kind == "subset" and len(ws) >= 2:
         return [f, d, ws[-2]]
+    if kind == "drop_first" and len(ws) >= 2:      # a subset whose array positions are shifted
+        return [ws[1], d, ws[-1]]
     if kind == "same_count" and len(ws) >= 2:
         return [f, d + 1, f + (len(ws) - 1) * (d + 1)]
     if kind == "same_ends" and len(ws) >= 3 and (ws[-1] - f) % 2 == 0 and (ws[-1] - f) // 2 != d:
